@@ -8,9 +8,13 @@ import (
 	"encoding/json"
 	"flag"
 	"fmt"
+	"io"
 	"math/rand"
 	"os"
 	"sort"
+
+	_ "github.com/buzzfeed/sso/internal/pkg/logging"
+	"github.com/sirupsen/logrus"
 )
 
 // Emitter writes one JSON object per line.
@@ -63,6 +67,7 @@ func main() {
 	out := flag.String("out", "", "output trace file (JSON lines)")
 	replay := flag.String("replay", "", "replay file: re-run the recorded case(s) instead of generating")
 	flag.Parse()
+	logrus.SetOutput(io.Discard) // sso logs through logrus' standard logger (the logging package's init points it at stdout)
 	if flag.NArg() != 1 {
 		fmt.Fprintln(os.Stderr, "usage: verifharness [flags] <engine>")
 		os.Exit(2)
